@@ -321,6 +321,7 @@ Definition poll_fut (s : st) (f : N) (x : fut) (w : N) : st * out :=
           end
       end
   | FSend v =>
+      if negb (s_alive s) then (s, ONA) else
       if s_closed s then (add_drops (kill s f x) [v], OReady OClosed) else
       match try_send_core v s with
       | (s', SOk) => (kill s' f x, OReady OOk)
@@ -328,6 +329,7 @@ Definition poll_fut (s : st) (f : N) (x : fut) (w : N) : st * out :=
       | (s', SFull) => (pend (reg_producer f w s') f (f_kind x) w, OPending)
       end
   | FSendB rest sent total =>
+      if negb (s_alive s) then (s, ONA) else
       if N.eqb sent total then (kill s f x, OReady (OBatch BOk total [])) else
       if s_closed s then (add_drops (kill s f x) rest, OReady (OBErr sent rest)) else
       match send_some rest s with
@@ -337,6 +339,7 @@ Definition poll_fut (s : st) (f : N) (x : fut) (w : N) : st * out :=
           else (pend (reg_producer f w s') f (FSendB rest' (sent + k) total) w, OPending)
       end
   | FSendM rest sent =>
+      if negb (s_alive s) then (s, ONA) else
       match rest with
       | [] => (kill s f x, OReady (OMut true sent []))
       | _ =>
